@@ -44,7 +44,8 @@ class SimGateway:
         self.bus = bus              # optional callable(cemi_bytes, channel) for received L_Data.req etc.
         self.fired: Counter[str] = Counter()
         self.rx: list[dict[str, Any]] = []   # everything received, parsed
-        self.accepted: list[tuple[int, int, bytes]] = []  # (cid, seq, cemi) processed exactly once
+        self.accepted: list[tuple[int, int, bytes]] = []
+        self.reused_counter: list[dict] = []  # (cid, seq, cemi) processed exactly once
         self.unacked_srv: dict[tuple[int, int], Any] = {}
         self.srv_acks: list[tuple[float, int, int, int]] = []
         self.down = False
@@ -167,6 +168,10 @@ class SimGateway:
         self._reply(via, resp, lat=b.get("lat"), to=ctrl)
         if k == "dup":
             self._later(b.get("d", 0.2), lambda: self._reply(via, resp, to=ctrl))
+        elif k == "ok+disconnect":
+            # accepts the connection and closes it again at once (same segment over TCP): e.g. a gateway that
+            # notices only afterwards that it has no free individual address
+            self._later(b.get("d", 0.0), lambda: self.server_disconnect(cid))
 
     def _connstate(self, body, via):
         if len(body) < 2:
@@ -221,6 +226,10 @@ class SimGateway:
             ch.rx_expected = (ch.rx_expected + 1) & 0xFF
         elif seq == (ch.rx_expected - 1) & 0xFF:
             process = False
+            last = next((c for (i, q, c) in reversed(self.accepted) if i == cid), None)
+            if last is not None and last != cemi:
+                # a *different* frame under the counter of the frame accepted before: the client did not advance
+                self.reused_counter.append({"cid": cid, "seq": seq, "cemi": cemi, "previous": last, "t": self.loop.time()})
         else:
             rec["out_of_order"] = True
             return
